@@ -70,6 +70,8 @@ def impl(case) -> str:
                                               xq, irc.ctcpDequote(xq), irc.ctcpDequote(s)))
     if case["kind"] == "rate":
         return _impl_rate(case)
+    if case["kind"] == "ctcp":
+        return _impl_ctcp(case)
     c, t = _client(case.get("nicklen"))
     calls = case["calls"] if case["kind"] == "hist" else [case]
     out = []
@@ -86,9 +88,13 @@ def impl(case) -> str:
 
 def _impl_rate(case, rate="case") -> str:
     """calls on ONE client whose lineRate is set, on a task.Clock (irc.reactor patched): after each call the
-    clock advances ticks x lineRate; at the end it advances until no call is pending.  Observation: the calls'
-    outcomes, the number of lines written after each call's ticks, all lines in the order written."""
+    clock advances ticks x lineRate; optionally, after the a-th call, connectionLost, gap more ticks, and
+    makeConnection of the SAME client on a new transport; at the end the clock advances until no call is pending.
+    Observation: the calls' outcomes, the number of lines on the current transport after each call's ticks, and
+    per transport all lines in the order written."""
     from twisted.internet import task
+    from twisted.internet.error import ConnectionDone
+    from twisted.python.failure import Failure as TwFailure
     from twisted.words.protocols import irc
     rate = case["rate"] if rate == "case" else rate
     clock = task.Clock()
@@ -97,8 +103,10 @@ def _impl_rate(case, rate="case") -> str:
     try:
         c, t = _client(case.get("nicklen"))
         c.lineRate = rate
+        transports = [t]
         tags, counts = [], []
-        for call, ticks in zip(case["calls"], case["ticks"]):
+        rc = case.get("reconnect")
+        for i, (call, ticks) in enumerate(zip(case["calls"], case["ticks"])):
             fn = c.msg if call["type"] == "PRIVMSG" else c.notice
             try:
                 fn(call["user"], call["message"], call["length"])
@@ -108,14 +116,65 @@ def _impl_rate(case, rate="case") -> str:
             if rate is not None:
                 for _ in range(ticks):
                     clock.advance(rate)
-            counts.append(len(t.writes))
+            counts.append(len(transports[-1].writes))
+            if rc and rc["after"] == i + 1:
+                c.connectionLost(TwFailure(ConnectionDone()))
+                if rate is not None:
+                    for _ in range(rc["gap"]):
+                        clock.advance(rate)
+                t2 = _Transport()
+                c.makeConnection(t2)
+                if case.get("nicklen") is not None:
+                    c.supported.parse(["NICKLEN=%d" % case["nicklen"]])
+                t2.writes.clear()
+                transports.append(t2)
         guard = 0
         while rate is not None and clock.getDelayedCalls() and guard < 100000:
             guard += 1
             clock.advance(rate)
-        return ";".join(tags) + " @ " + ",".join(map(str, counts)) + " @ " + "|".join(w.hex() for w in t.writes)
+        return (";".join(tags) + " @ " + ",".join(map(str, counts)) + " @ "
+                + "/".join("|".join(w.hex() for w in tr.writes) for tr in transports))
     finally:
         irc.reactor = saved
+
+
+SHOW_NONE = "None"
+
+
+def _show_xmsgs(msgs) -> str:
+    return "[" + ",".join("(" + show_str(tag) + "," + (SHOW_NONE if data is None else "Some(" + show_str(data) + ")") + ")"
+                          for tag, data in msgs) + "]"
+
+
+def _impl_ctcp(case) -> str:
+    """direct path: ctcpExtract(ctcpStringify(msgs)); wire path: ctcpMakeQuery / ctcpMakeReply on a sending
+    client, the written lines fed to a receiving client, what its ctcpQuery / ctcpReply receive"""
+    from twisted.words.protocols import irc
+    msgs = [(tag, data) for tag, data in case["msgs"]]
+    ex = irc.ctcpExtract(irc.ctcpStringify(msgs))
+    direct = "E" + _show_xmsgs(ex["extended"]) + "N[" + ",".join(show_str(x) for x in ex["normal"]) + "]"
+    got = {"Q": [], "R": []}
+
+    class R(irc.IRCClient):
+        performLogin = False
+        nickname = "peer"
+
+        def ctcpQuery(self, user, channel, messages):
+            got["Q"].extend(messages)
+
+        def ctcpReply(self, user, channel, messages):
+            got["R"].extend(messages)
+
+    wire = []
+    for key, meth in (("Q", "ctcpMakeQuery"), ("R", "ctcpMakeReply")):
+        c, t = _client(None)
+        getattr(c, meth)("peer", msgs)
+        r = R()
+        r.makeConnection(_Transport())
+        for w in t.writes:
+            r.dataReceived(w)
+        wire.append(key + _show_xmsgs(got[key]))
+    return direct + " | " + " ".join(wire)
 
 
 # --------------------------------------------------------------------------------------
@@ -199,6 +258,27 @@ def oracle(case, obs):
         if 1 in xq:
             return Failure(case, f"ctcpQuote output {parts[3]} contains X-DELIM", "ctcp-delimiter")
         return None
+    if case["kind"] == "ctcp":
+        msgs = [(tag, data) for tag, data in case["msgs"]]
+        wf = all(" " not in tag and (tag or data) for tag, data in msgs)
+        if not wf:
+            return None
+        want = [(tag, data if data else None) for tag, data in msgs]
+        direct, wire = obs.split(" | ")
+        exp = "E" + _show_xmsgs(want) + "N[]"
+        if direct != exp:
+            cls = "leading-space" if any(d and d.startswith(" ") for _, d in msgs) else "other"
+            return Failure(case, f"ctcpExtract(ctcpStringify({msgs!r})) gives {direct}, expected {exp}",
+                           "ctcp-message-roundtrip-" + cls)
+        # through two clients, for messages the line splitter leaves alone (one line, no TAB/LF/CR/VT/FF)
+        text = "".join((t or "") + (d or "") for t, d in msgs)
+        if not any(c in text for c in "\t\n\r\x0b\x0c") and len(text) + 4 * len(msgs) < 200 and msgs:
+            for key, part in zip("QR", wire.split(" ")):
+                if part != key + _show_xmsgs(want):
+                    cls = "leading-space" if any(d and d.startswith(" ") for _, d in msgs) else "other"
+                    return Failure(case, f"{'ctcpMakeQuery' if key == 'Q' else 'ctcpMakeReply'}({msgs!r}) arrives at the "
+                                   f"peer's {'ctcpQuery' if key == 'Q' else 'ctcpReply'} as {part}", "ctcp-wire-roundtrip-" + cls)
+        return None
     if case["kind"] == "rate":
         tags, counts, writes = obs.split(" @ ")
         # the full ordered sequence of lines must be the one the same calls write with lineRate = None
@@ -206,21 +286,32 @@ def oracle(case, obs):
         rtags, _, rwrites = ref.split(" @ ")
         if tags != rtags:
             return Failure(case, f"with lineRate={case['rate']} the calls end as {tags}, without as {rtags}", "rate-outcome")
-        got, want = writes.split("|") if writes else [], rwrites.split("|") if rwrites else []
+        gts = [x.split("|") if x else [] for x in writes.split("/")]
+        wts = [x.split("|") if x else [] for x in rwrites.split("/")]
+        if len(gts) != len(wts):
+            return Failure(case, "different number of transports", "rate-transports")
+        # lines queued when the connection is lost may be dropped: earlier transports carry a prefix
+        for k, (g, w) in enumerate(zip(gts[:-1], wts[:-1])):
+            if g != w[:len(g)]:
+                return Failure(case, f"lineRate={case['rate']}: transport {k} got {len(g)} lines that are not a prefix of "
+                               f"the {len(w)} lines written without rate limiting", "rate-queue-order")
+        got, want = gts[-1], wts[-1]
         if got != want:
+            after = " after the reconnect" if len(gts) > 1 else ""
             if sorted(got) == sorted(want):
                 i = next(j for j, (a, b) in enumerate(zip(got, want)) if a != b)
-                return Failure(case, f"lineRate={case['rate']}: the same {len(got)} lines are written in another order; line {i + 1} "
-                               f"is {bytes.fromhex(got[i])[:50]!r}, without rate limiting it is {bytes.fromhex(want[i])[:50]!r}",
-                               "rate-queue-order")
-            return Failure(case, f"lineRate={case['rate']}: {len(got)} lines written, {len(want)} without rate limiting",
-                           "rate-queue-lost-or-extra")
+                return Failure(case, f"lineRate={case['rate']}: the same {len(got)} lines are written in another order{after}; "
+                               f"line {i + 1} is {bytes.fromhex(got[i])[:50]!r}, without rate limiting it is "
+                               f"{bytes.fromhex(want[i])[:50]!r}", "rate-queue-order")
+            return Failure(case, f"lineRate={case['rate']}: {len(got)} lines written{after} once the clock has run, "
+                           f"{len(want)} without rate limiting", "rate-queue-lost-or-extra" + ("-after-reconnect" if after else ""))
         # rate limiting itself: after a call and its ticks at most (lines before + 1 + ticks) lines are out
         before = 0
-        for n, t in zip([int(x) for x in counts.split(",")], case["ticks"]):
+        rc = case.get("reconnect")
+        for i, (n, t) in enumerate(zip([int(x) for x in counts.split(",")], case["ticks"])):
             if n > before + 1 + t:
                 return Failure(case, f"{n - before} lines written within {t} rate interval(s)", "rate-not-limited")
-            before = n
+            before = 0 if rc and rc["after"] == i + 1 else n
         # and each call on its own satisfies the property (checked on the unqueued sequence, call by call)
         sub = {"kind": "hist", "calls": case["calls"]}
         if "nicklen" in case:
@@ -322,6 +413,8 @@ def model_equal(case, a, b):
     # when it satisfies the whole property on this case
     if case["kind"] == "send" and _in_finding_class(case) and a != "ValueError" and oracle(case, a) is None:
         return True
+    if case["kind"] == "ctcp":
+        return a.split(" | ")[0] == b
     if case["kind"] == "rate":
         sub = {"kind": "hist", "calls": case["calls"]}
         return any(_in_finding_class(dict(c, kind="send")) for c in case["calls"]) and oracle(case, a) is None
@@ -362,6 +455,10 @@ def corpus():
         {"kind": "send", "type": "PRIVMSG", "user": "u", "message": "x y", "length": 14},
         {"kind": "send", "type": "PRIVMSG", "user": "foo", "message": "ab\rcd", "length": 20},
         {"kind": "send", "type": "PRIVMSG", "user": "u", "message": "w" * 900, "length": 700},
+        {"kind": "ctcp", "msgs": [["ACTION", " waves"], ["X", "  "], ["PING", None], ["V", ""]]},
+        {"kind": "rate", "rate": 1, "ticks": [0, 0], "reconnect": {"after": 1, "gap": 0},
+         "calls": [{"type": "PRIVMSG", "user": "u", "message": "one two three four five six", "length": 18},
+                   {"type": "PRIVMSG", "user": "u", "message": "seven eight nine ten", "length": 18}]},
         {"kind": "rate", "rate": 1, "ticks": [0, 1],
          "calls": [{"type": "PRIVMSG", "user": "u", "message": "one two three four five six", "length": 18},
                    {"type": "NOTICE", "user": "u", "message": "seven eight", "length": 18}]},
@@ -449,7 +546,23 @@ def gen(rng, tier):
                 msg = msg.replace(" ", "\n", 2)
             calls.append({"type": typ, "user": user, "message": msg, "length": length})
             ticks.append(rng.choice([0, 0, 1, 2, 50]))
-        cases.append({"kind": "rate", "rate": rng.choice([0.5, 1, 2, 0.25]), "calls": calls, "ticks": ticks})
+        case = {"kind": "rate", "rate": rng.choice([0.5, 1, 2, 0.25]), "calls": calls, "ticks": ticks}
+        # reconnect of the SAME client: connectionLost with the timer pending (few ticks) or idle (50 ticks),
+        # 0..2 more ticks while disconnected, makeConnection on a new transport, then the remaining calls
+        if len(calls) >= 2 and rng.random() < 0.5:
+            case["reconnect"] = {"after": rng.randrange(1, len(calls)), "gap": rng.choice([0, 0, 1, 2])}
+        cases.append(case)
+    # CTCP at message level: ctcpStringify -> ctcpExtract, and ctcpMakeQuery / ctcpMakeReply through
+    # client -> wire -> client; data from a hostile alphabet incl. leading / trailing / only spaces, empty vs
+    # absent data, several extended messages in one line
+    tags_ = ["ACTION", "PING", "VERSION", "X", "a\x01b", "\\", "T\\a", "", "é"]
+    datas = [None, "", " ", "  ", " x", "x ", " x ", "a b", "a  b", "\x01", "\\", "\\a", "\x01\\ ", "é", ":", "\x10",
+             "  lead", "trail  ", "\t", "a\nb", "1234567890"]
+    for d in datas:
+        cases.append({"kind": "ctcp", "msgs": [["ACTION", d]]})
+        cases.append({"kind": "ctcp", "msgs": [["X", d], ["PING", "1"]]})
+    for _ in range(200 if tier == "quick" else 3000):
+        cases.append({"kind": "ctcp", "msgs": [[rng.choice(tags_), rng.choice(datas)] for _ in range(rng.randrange(0, 4))]})
     # texts with bare CRs and no LF that fit one line, at and just below the limit
     for _ in range(120 if tier == "quick" else 1200):
         typ, user = rng.choice(["PRIVMSG", "NOTICE"]), rng.choice(["u", "#c", "foo"])
@@ -480,6 +593,11 @@ def coq_cps(s: str) -> str:
 def to_coq(case):
     if case["kind"] == "quote":
         return "CQuote " + coq_cps(case["s"])
+    if case["kind"] == "ctcp":
+        if any(0xD800 <= ord(ch) <= 0xDFFF for t, d in case["msgs"] for ch in (t + (d or ""))):
+            return None
+        ms = ["(" + coq_cps(t) + ", " + ("None" if d is None else "Some " + coq_cps(d)) + ")" for t, d in case["msgs"]]
+        return "CCtcp " + ("[" + "; ".join(ms) + "]" if ms else "(@nil xmsg)")
     if case["kind"] == "rate":
         terms = []
         for call, ticks in zip(case["calls"], case["ticks"]):
@@ -490,7 +608,8 @@ def to_coq(case):
             if t is None:
                 return None
             terms.append(f"({t}, {ticks}%nat)")
-        return "CRate [" + "; ".join(terms) + "]"
+        rc = case.get("reconnect")
+        return "CRate [" + "; ".join(terms) + "] " + (f"(Some ({rc['after']}%nat, {rc['gap']}%nat))" if rc else "None")
     if case["kind"] == "hist":
         terms = []
         for call in case["calls"]:
@@ -516,10 +635,25 @@ def to_coq(case):
 
 
 def shrink(case):
+    if case["kind"] == "ctcp":
+        msgs = case["msgs"]
+        for i in range(len(msgs)):
+            if len(msgs) > 1:
+                yield dict(case, msgs=msgs[:i] + msgs[i + 1:])
+            tag, data = msgs[i]
+            if data:
+                for k in range(len(data)):
+                    yield dict(case, msgs=msgs[:i] + [[tag, data[:k] + data[k + 1:]]] + msgs[i + 1:])
+            if len(tag) > 1:
+                yield dict(case, msgs=msgs[:i] + [[tag[:1], data]] + msgs[i + 1:])
+        return
     if case["kind"] == "rate":
         calls, ticks = case["calls"], case["ticks"]
         for i in range(len(calls)):
             if len(calls) > 1:
+                rc = case.get("reconnect")
+                if rc and not (rc["after"] > i + 1 or (rc["after"] <= i and False)):
+                    continue        # keep the call structure around a reconnect
                 yield dict(case, calls=calls[:i] + calls[i + 1:], ticks=ticks[:i] + ticks[i + 1:])
         for i, call in enumerate(calls):
             m = call["message"]
@@ -561,6 +695,10 @@ def hist(case, obs):
         return "quote"
     if case["kind"] == "hist":
         return "history-%d-calls" % len(case["calls"])
+    if case["kind"] == "ctcp":
+        return "ctcp-%d-messages" % min(len(case["msgs"]), 3)
+    if case["kind"] == "rate" and case.get("reconnect"):
+        return "rate-limited:reconnect"
     if case["kind"] == "rate":
         n = obs.split(" @ ")[-1].count("|") + 1 if obs.split(" @ ")[-1] else 0
         return "rate-limited:%s-lines" % ("0-2" if n <= 2 else "3-9" if n <= 9 else "10+")
@@ -584,7 +722,8 @@ SPEC = Spec(
     histogram=hist,
     model_equal=model_equal,
     nontrivial=lambda c, o: (c["kind"] == "quote" and any(ch in c["s"] for ch in "\x10\x00\n\r\\\x01")) or
-                            (c["kind"] in ("send", "hist", "rate") and "|" in o),
+                            (c["kind"] in ("send", "hist", "rate") and "|" in o) or
+                            (c["kind"] == "ctcp" and any(d for _, d in c["msgs"])),
     rule="quote: every string of length <= 3 (thorough 4) over {DLE NUL LF backslash X-DELIM a 0} and random strings "
          "over the quoting alphabets (quote, dequote of the quoted, dequote of the raw string, for both levels); send: "
          "msg/notice to 5 targets with messages of 0..13 words from an 18-word list (long words, multi-byte, astral, "
@@ -594,7 +733,11 @@ SPEC = Spec(
          "characters; histories of 2..4 msg/notice calls on ONE client with length None / explicit / too small, same "
          "and different targets (each call must behave as it does alone); the same with lineRate set (0.25..2 s) on a "
          "task.Clock: 1..3 calls whose messages split into distinct numbered lines, 0/1/2/50 clock ticks after each "
-         "call, final drain -- the ordered sequence of lines must equal the lineRate=None sequence. non-trivial = quoting of a special character / a message split into >= 2 lines",
+         "call, final drain -- the ordered sequence of lines must equal the lineRate=None sequence; half of the multi-call "
+         "cases lose the connection after a call (timer pending or idle), tick 0..2 times and reconnect the same client "
+         "to a new transport; ctcp: lists of 0..3 (tag, data) from 9 tags and 21 data values (None, empty, leading / "
+         "trailing / only spaces, X-DELIM, backslashes, TAB, LF) through ctcpStringify/ctcpExtract and through "
+         "ctcpMakeQuery / ctcpMakeReply between two clients. non-trivial = quoting of a special character / a message split into >= 2 lines",
     trusted=[
         "translator translate/replace_chain.py + translate/c43.py (fail-closed; validated by this correspondence run)",
         "coq/Lib/PyStr.v py_replace and coq/Lib/CodecsText.v re_sub_escape (re.sub of <Q>. with DOTALL and the "
